@@ -136,7 +136,7 @@ Example C25_nonvacuous :
      /\ lookup (o_fs o) (pth "d/e") = Some (ESym "t")
      /\ o_states o = [(pth "a", true); (pth "b/c", true); (pth "d/e", false)]
      /\ forallb ev_safe (o_trace o) = true
-     /\ length (o_trace o) = 19%nat.
+     /\ length (o_trace o) = 20%nat.
 Proof. vm_compute. repeat split. Qed.
 
 Print Assumptions C25_untouched.
